@@ -24,6 +24,11 @@ def extra_worlds():
         {"top.do": [S(deps=["d1", "d2"])], "d1.do": [S(deps=["al"])], "d2.do": [S(deps=["al"], out="file")],
          "al.do": [S(kind="always", deps=["s"])]},
         ["top", "d1", "d2", "al"], ["top"])
+    w["oobshare"] = World(   # two dirty dependents request, in parallel, a target that is only maybe-dirty through a checksummed node
+        "oobshare", {"s": ["0", "2"], "qs": ["0", "1"]},
+        {"all.do": [S(deps=["q1", "q2"])], "q1.do": [S(deps=["p", "qs"])], "q2.do": [S(deps=["p", "qs"], out="file")],
+         "p.do": [S(deps=["t"])], "t.do": [S(kind="csum", deps=["s"], out="file")]},
+        ["all", "q1", "q2", "p", "t"], ["all"])
     w["chain3"] = World(
         "chain3", {"s": ["0", "1"]},
         {"t1.do": [S(deps=["m"])], "t2.do": [S(deps=["m"], out="file")], "m.do": [S(deps=["l"])], "l.do": [S(deps=["s"])]},
@@ -38,21 +43,34 @@ def scenarios(tier):
     L = []
     L.append((SC.scn("diamond-j2", w["diamond"], ["redo --no-log -j2 top"], visible=VIS), 1 if q else 2))
     L.append((SC.scn("fan3-j3", w["fan3"], ["redo --no-log -j3 top"], visible=VIS), 1 if q else 2))
-    L.append((SC.scn("csum-shared-rebuild-j2", w["csum-shared"], ["redo-ifchange top"],
-                     setup=[["ifchange", ["top"]], ["edit", "s", "2"]], visible=VIS, env_j=2), 1 if q else 2))
+    L.append((SC.scn("csum-shared-rebuild-j2", w["csum-shared"], ["redo --no-log -j2 top"],
+                     setup=[["ifchange", ["top"]], ["edit", "s", "2"]], visible=VIS), 1 if q else 2))
+    L.append((SC.scn("oob-shared-rebuild-j2", w["oobshare"], ["redo --no-log -j2 all"],
+                     setup=[["ifchange", ["all"]], ["edit", "s", "2"], ["edit", "qs", "1"]], visible=VIS), 1 if q else 2))
     L.append((SC.scn("always-shared-j2", w["always-shared"], ["redo --no-log -j2 top"], visible=VIS), 1 if q else 2))
     # every order of the command line (what --shuffle can produce) for two targets sharing a chain
     for perm in itertools.permutations(["t1", "t2"]):
         L.append((SC.scn("chain3-j2-" + "".join(perm), w["chain3"], ["redo --no-log -j2 " + " ".join(perm)], visible=VIS), 1 if q else 2))
     if not q:
         L.append((SC.scn("diamond-j3", w["diamond"], ["redo --no-log -j3 top"], visible=VIS), 2))
-        L.append((SC.scn("diamond-rebuild-j2", w["diamond"], ["redo-ifchange top"],
-                         setup=[["ifchange", ["top"]], ["edit", "s", "1"]], visible=VIS, env_j=2), 2))
+        L.append((SC.scn("diamond-rebuild-j2", w["diamond"], ["redo --no-log -j2 top"],
+                         setup=[["ifchange", ["top"]], ["edit", "s", "1"]], visible=VIS), 2))
         for perm in itertools.permutations(["a", "b", "c"]):
             L.append((SC.scn("fan3-args-j2-" + "".join(perm), w["fan3"], ["redo --no-log -j2 " + " ".join(perm)], visible=VIS), 1))
-    # scenarios that run redo-ifchange at top level get parallelism through an inherited jobserver is C08's business;
-    # here `env_j` marks them as serial-at-top (redo-ifchange has no -j) but parallel below via `redo -jN` is not needed.
+    for scn_, _b in L:
+        scn_["post_ops"] = followup(scn_)
     return L
+
+
+def followup(scn):
+    """after the scheduled run: edit every source to another value and rebuild the same roots, unscheduled"""
+    ops = []
+    for sname, alpha in sorted(scn["world"].sources.items()):
+        ops.append(["edit", sname, alpha[-1]])
+    ops.append(["touch", sorted(scn["world"].sources)[0]])
+    roots = [a for a in scn["roots"][0]["argv"][1:] if not a.startswith("-")]
+    ops.append(["ifchange", roots])
+    return ops
 
 
 def serial_variant(scn):
@@ -70,7 +88,33 @@ def prepare(ex, scn):
     res = ex.run_one(serial_variant(scn))
     if res["verdict"] != "done":
         raise common.MachineryError("serial baseline of %s did not finish: %s %s" % (scn["name"], res["verdict"], res.get("error")))
-    BASE[scn["name"]] = {"roots": res["roots"], "files": res["files"], "dbkey": res["dbkey"], "trace": res["trace"]}
+    BASE[scn["name"]] = {"roots": res["roots"], "files": res["files"], "dbkey": res["dbkey"], "trace": res["trace"],
+                         "post_ops": res.get("post_ops")}
+
+
+def strip_checked(dbkey):
+    """Rows without the `checked_runid` class.  Argument (DESIGN.md 9.7): checked_runid is a per-run memo "verified
+    clean during run R"; which nodes get memoised depends on which requester reaches a node first.  It is only ever
+    set on a node that *is* clean as of run R, so using it later as a lower bound for "changed since" is sound whatever
+    its value; the follow-up differential below (edit + rebuild after every schedule) backs this empirically."""
+    if not dbkey or len(dbkey) != 2:
+        return dbkey
+    rows = tuple(sorted((r[0], r[1], r[2], r[4], r[5], r[6], r[7]) for r in dbkey[0]))
+    return (rows, tuple(map(tuple, dbkey[1])))
+
+
+def implied(edges, x, z, skip):
+    """is z reachable from x through recorded edges other than `skip`?"""
+    seen, todo = set(), [x]
+    while todo:
+        n = todo.pop()
+        for (a, b, m, d) in edges:
+            if a == n and (a, b) != skip and b not in seen:
+                if b == z:
+                    return True
+                seen.add(b)
+                todo.append(b)
+    return False
 
 
 def oracle(scn, res):
@@ -88,12 +132,25 @@ def oracle(scn, res):
     if diff:
         out.append(({"kind": "contents-differ-from-serial", "scenario": scn["name"], "files": diff},
                     {n: (base["files"].get(n), res["files"].get(n)) for n in diff}))
-    if res["dbkey"] != base["dbkey"]:
-        a, b = base["dbkey"], res["dbkey"]
-        d = {"rows": sorted(set(map(tuple, a[0])) ^ set(map(tuple, b[0])), key=str)[:8],
-             "deps": sorted(set(map(tuple, a[1])) ^ set(map(tuple, b[1])), key=str)[:8]} if a and b and len(a) == 2 and len(b) == 2 else {}
-        out.append(({"kind": "recorded-state-differs-from-serial", "scenario": scn["name"],
-                     "fields": sorted({str(r[0]) for r in d.get("rows", [])})}, d))
+    a, b = strip_checked(base["dbkey"]), strip_checked(res["dbkey"])
+    if a != b:
+        rows = sorted(set(a[0]) ^ set(b[0]), key=str)
+        deps = sorted(set(a[1]) ^ set(b[1]), key=str)
+        csums = {r[0] for r in b[0] if r[-1]}
+        both = set(a[1]) | set(b[1])
+        if not rows and deps and all(e[1] in csums and implied(both, e[0], e[1], (e[0], e[1])) for e in deps):
+            # the out-of-band path records the checksummed dependency it rebuilt under the *requesting script's*
+            # target; the edge is implied transitively, and who carries it depends on who triggered the path first
+            out.append(({"kind": "oob-edge-recorded-under-requesting-script"}, {"scenario": scn["name"], "deps": deps[:6]}))
+        else:
+            out.append(({"kind": "recorded-state-differs-from-serial", "scenario": scn["name"],
+                         "fields": sorted({str(r[0]) for r in rows})}, {"rows": rows[:8], "deps": deps[:8]}))
+    if base.get("post_ops") and res.get("post_ops"):
+        pa, pb = base["post_ops"], res["post_ops"]
+        diff = sorted(n for n in set(pa["files"]) | set(pb["files"]) if pa["files"].get(n) != pb["files"].get(n))
+        if diff or [x["rc"] for x in pa["steps"]] != [x["rc"] for x in pb["steps"]]:
+            out.append(({"kind": "later-rebuild-differs-from-serial", "scenario": scn["name"], "files": diff},
+                        {"serial": pa["steps"], "got": pb["steps"]}))
     if sorted(set(ran)) != sorted(set(l.split(" ")[1] for l in base["trace"] if l.startswith("B "))):
         out.append(({"kind": "set-of-built-targets-differs-from-serial", "scenario": scn["name"]},
                     {"serial": base["trace"], "got": res["trace"]}))
